@@ -254,7 +254,142 @@ def _syntax_transformers():
             n.body.insert(k, ast.parse("import logging").body[0])
             return n
 
-    return {"return / raise / continue followed by code rewritten with an else": ElseAbsorb, "conditional expressions written as if / else statements": IfExpToIf,
+    class ExtractBlocks(ast.NodeTransformer):
+        """extract-method refactor: in every method / function the first run of >= 3 consecutive simple statements at the top
+        level of the body becomes a helper (method of the same class / function of the same module) that receives the locals
+        the run reads and returns the locals it defines for the rest of the body"""
+
+        def __init__(self):
+            self.k = 0
+            self.new_module_funcs = []
+
+        @staticmethod
+        def _simple(s_):
+            if not isinstance(s_, (ast.Assign, ast.AugAssign, ast.Expr)):
+                return False
+            for x in ast.walk(s_):
+                if isinstance(x, (ast.Lambda, ast.Yield, ast.YieldFrom, ast.Await, ast.NamedExpr, ast.ListComp, ast.SetComp, ast.DictComp, ast.GeneratorExp, ast.Starred)):
+                    return False
+                if isinstance(x, ast.Call) and isinstance(x.func, ast.Name) and x.func.id in ("super", "locals", "vars"):
+                    return False
+            if isinstance(s_, ast.Expr) and isinstance(s_.value, ast.Constant):
+                return False
+            return True
+
+        def _extract(self, fn, in_class):
+            body = fn.body
+            params = {a.arg for a in fn.args.posonlyargs + fn.args.args + fn.args.kwonlyargs}
+            if fn.args.vararg or fn.args.kwarg or any(isinstance(d, ast.Name) and d.id in ("staticmethod", "classmethod", "property") for d in fn.decorator_list):
+                return None
+            if any(isinstance(x, (ast.Global, ast.Nonlocal)) for x in ast.walk(fn)):
+                return None
+            nested_defs = [x for x in ast.walk(fn) if x is not fn and isinstance(x, (ast.FunctionDef, ast.Lambda))]
+            i = 0
+            while i < len(body):
+                j = i
+                while j < len(body) and self._simple(body[j]):
+                    j += 1
+                if j - i >= 3:
+                    break
+                i = j + 1 if j == i else j
+            else:
+                return None
+            blk = body[i:j]
+            stored_before = set(params)
+            for s_ in body[:i]:
+                for x in ast.walk(s_):
+                    if isinstance(x, ast.Name) and isinstance(x.ctx, ast.Store):
+                        stored_before.add(x.id)
+                    if isinstance(x, ast.FunctionDef):
+                        stored_before.add(x.name)
+            if any(isinstance(s_, ast.FunctionDef) for s_ in body[:i]):
+                return None  # the block may call closures of the function
+            assigned, loaded = [], []
+            for s_ in blk:
+                for x in ast.walk(s_):
+                    if isinstance(x, ast.Name):
+                        (assigned if isinstance(x.ctx, ast.Store) else loaded).append(x.id)
+            ins = [n for n in dict.fromkeys(loaded) if n in stored_before and n != "self"]
+            later = set()
+            for s_ in body[j:]:
+                for x in ast.walk(s_):
+                    if isinstance(x, ast.Name) and isinstance(x.ctx, (ast.Load, ast.Del)):
+                        later.add(x.id)
+                    if isinstance(x, ast.AugAssign) and isinstance(x.target, ast.Name):
+                        later.add(x.target.id)
+            outs = [n for n in dict.fromkeys(assigned) if n in later]
+            uses_self = any(isinstance(x, ast.Name) and x.id == "self" for s_ in blk for x in ast.walk(s_))
+            if uses_self and not in_class:
+                return None
+            self.k += 1
+            name = f"_extracted_{self.k}"
+            ret = ast.Return(value=ast.Tuple(elts=[ast.Name(id=n, ctx=ast.Load()) for n in outs], ctx=ast.Load()) if len(outs) != 1 else ast.Name(id=outs[0], ctx=ast.Load())) if outs else None
+            as_method = in_class and "self" in params
+            hp = (["self"] if as_method else []) + ins
+            helper = ast.FunctionDef(name=name, args=ast.arguments(posonlyargs=[], args=[ast.arg(arg=a) for a in hp], kwonlyargs=[], kw_defaults=[], defaults=[]),
+                                     body=list(blk) + ([ret] if ret else []), decorator_list=[], type_params=[])
+            callf = ast.Attribute(value=ast.Name(id="self", ctx=ast.Load()), attr=name, ctx=ast.Load()) if as_method else ast.Name(id=name, ctx=ast.Load())
+            call = ast.Call(func=callf, args=[ast.Name(id=a, ctx=ast.Load()) for a in ins], keywords=[])
+            if not outs:
+                stmt = ast.Expr(value=call)
+            elif len(outs) == 1:
+                stmt = ast.Assign(targets=[ast.Name(id=outs[0], ctx=ast.Store())], value=call)
+            else:
+                stmt = ast.Assign(targets=[ast.Tuple(elts=[ast.Name(id=n, ctx=ast.Store()) for n in outs], ctx=ast.Store())], value=call)
+            fn.body = body[:i] + [ast.copy_location(stmt, blk[0])] + body[j:]
+            return helper, as_method
+
+        def visit_ClassDef(self, n):
+            new = []
+            for b in n.body:
+                if isinstance(b, ast.FunctionDef):
+                    r = self._extract(b, True)
+                    if r:
+                        h, as_method = r
+                        if as_method:
+                            new.append(h)
+                        else:
+                            self.new_module_funcs.append(h)
+            n.body.extend(new)
+            return n
+
+        def visit_Module(self, n):
+            self.new_module_funcs = []
+            out = []
+            for b in n.body:
+                if isinstance(b, ast.ClassDef):
+                    self.visit_ClassDef(b)
+                elif isinstance(b, ast.FunctionDef):
+                    r = self._extract(b, False)
+                    if r:
+                        self.new_module_funcs.append(r[0])
+                out.append(b)
+            n.body = out + self.new_module_funcs
+            return n
+
+    class ExtractBlocksRenamed(ExtractBlocks):
+        """the same refactor, the helper written with its own names: parameters p_<name>, locals v_<name>"""
+
+        def _extract(self, fn, in_class):
+            r = super()._extract(fn, in_class)
+            if r is None:
+                return None
+            helper, as_method = r
+            ps = {a.arg for a in helper.args.args} - {"self"}
+            loc = {x.id for x in ast.walk(helper) if isinstance(x, ast.Name) and isinstance(x.ctx, ast.Store)} - ps
+            mp = {n: "p_" + n for n in ps}
+            mp.update({n: "v_" + n for n in loc})
+            for a in helper.args.args:
+                if a.arg in mp:
+                    a.arg = mp[a.arg]
+            for x in ast.walk(helper):
+                if isinstance(x, ast.Name) and x.id in mp:
+                    x.id = mp[x.id]
+            return helper, as_method
+
+    return {"extract-method: the first straight-line run of every function moved into a helper": ExtractBlocks,
+            "extract-method, the helper written with its own parameter and local names": ExtractBlocksRenamed,
+            "return / raise / continue followed by code rewritten with an else": ElseAbsorb, "conditional expressions written as if / else statements": IfExpToIf,
             "unused method / function added everywhere, every function documented": DeadCode, "logging.getLogger(__name__).debug('trace') added to every function and loop body": Logging,
             "methods of every class in reverse order": ReverseMethods, "else after return / raise / continue removed": NoElseReturn,
             "two-way assignments written as conditional expressions": IfToIfExp, "squares written as products": PowToMul,
